@@ -32,7 +32,7 @@ theorem host_first (e : Env) (r : Bytes) (hnf : usedForwarding e = false) (hk : 
   rw [hr, afterHook2_first e (playerVHost e) v2 hnf hk h2]
 
 /-- without hooks the address always exists and starts with the player's virtual host -/
-theorem host_first_no_hooks (e : Env) (h1 : e.hook1 = none) (h2 : e.hook2 = none)
+theorem host_first_no_hooks (e : Env) (h1 : e.hook1Seen = none) (h2 : e.hook2 = none)
     (hm : e.mode ≠ .legacy ∧ e.mode ≠ .bungeeguard) :
     ∃ r, serverAddress e = .ok r ∧ beforeNul r = beforeNul (playerVHost e) := by
   have hnf : usedForwarding e = false := by simp [usedForwarding, h1, hm.1, hm.2]
@@ -103,13 +103,13 @@ theorem host_first_fails_on_bracket_in_later_part :
 
 /-- legacy mode (no `HandshakeAddresser` on the server): exactly four NUL-joined fields, no Forge marker
     appended, the `BackendHandshakeAddresser` not consulted -/
-theorem legacy_address_shape (e : Env) (h1 : e.hook1 = none) (hm : e.mode = .legacy) :
+theorem legacy_address_shape (e : Env) (h1 : e.hook1Seen = none) (hm : e.mode = .legacy) :
     serverAddress e = .ok (e.serverAddr ++ [0] ++ hostOf e.remoteAddr ++ [0] ++ undashed e.id ++ [0] ++
       jsonProps (e.propsNil && e.props.isEmpty && (forwardedProps e false).isEmpty) (forwardedProps e false)) := by
   simp [serverAddress, handshakeAddr, usedForwarding, afterHook1, forwardedOrHost, h1, hm,
     createLegacyForwardingAddress, forwardingAddress]
 
-theorem bungeeguard_address_shape (e : Env) (h1 : e.hook1 = none) (hm : e.mode = .bungeeguard) :
+theorem bungeeguard_address_shape (e : Env) (h1 : e.hook1Seen = none) (hm : e.mode = .bungeeguard) :
     serverAddress e = .ok (e.serverAddr ++ [0] ++ hostOf e.remoteAddr ++ [0] ++ undashed e.id ++ [0] ++
       jsonProps (e.propsNil && e.props.isEmpty && (forwardedProps e true).isEmpty) (forwardedProps e true)) := by
   simp [serverAddress, handshakeAddr, usedForwarding, afterHook1, forwardedOrHost, h1, hm,
@@ -156,6 +156,41 @@ theorem forwarding_address_parsed_by_backend (e : Env) (withToken : Bool)
       simp only [List.append_eq_nil_iff] at this
       exact this.1.1
     simp [this]
+
+/-! ### the ServerInfo wrapper (`newViaServerInfo`, stored by `Proxy.Register` for Via-routed backends) -/
+
+/-- A Via-wrapped registration behaves, for the handshake address, exactly like the same server without a
+    `HandshakeAddresser`: the wrapper is not a hook, for every input. -/
+theorem via_wrapped_like_unhooked (e : Env) (hv : e.viaWrapped = true) :
+    serverAddress e = serverAddress { e with hook1 := none, viaWrapped := false } := by
+  cases e
+  simp only at hv
+  subst hv
+  rfl
+
+/-- hence the wrapper never switches the forwarding format off: a wrapped backend in legacy / BungeeGuard
+    mode is sent the full forwarding address, whether or not the wrapped ServerInfo has a hook of its own -/
+theorem via_wrapped_keeps_forwarding (e : Env) (hv : e.viaWrapped = true)
+    (hm : e.mode = .legacy ∨ e.mode = .bungeeguard) :
+    usedForwarding e = true ∧
+    serverAddress e = .ok (forwardingAddress e (decide (e.mode = .bungeeguard))) := by
+  have h1 : e.hook1Seen = none := by simp [Env.hook1Seen, hv]
+  rcases hm with hm | hm
+  · simp [serverAddress, handshakeAddr, usedForwarding, afterHook1, forwardedOrHost, h1, hm,
+      createLegacyForwardingAddress]
+  · simp [serverAddress, handshakeAddr, usedForwarding, afterHook1, forwardedOrHost, h1, hm,
+      createBungeeGuardForwardingAddress]
+
+/-- The defective variant (a wrapper that itself implements `HandshakeAddresser` by delegating, returning the
+    default address when the wrapped ServerInfo has no hook) is "a hook that is always present": modelled as
+    `hook1 := some id`, it sends the bare virtual host where the forwarding address is due. -/
+theorem via_wrapper_as_hook_fails :
+    let e : Env := { mode := .legacy, bgSecret := [], serverAddr := str "10.0.0.1:25566", remoteAddr := str "1.2.3.4:5",
+                     id := List.replicate 16 0, props := [], propsNil := false, connType := .vanilla,
+                     vhostAddr := str "play.example.org:25565", hook1 := some (fun v => v), hook2 := none }
+    serverAddress e = .ok (str "play.example.org") ∧ bungeeParse (str "play.example.org") = none ∧
+    serverAddress { e with viaWrapped := true } = .ok (forwardingAddress e false) := by
+  refine ⟨rfl, by decide, rfl⟩
 
 /-- the JSON part never contains a raw NUL (so the four-way split is unambiguous), whatever the properties -/
 theorem json_part_has_no_nul (isNil : Bool) (ps : List Property) : NUL ∉ jsonProps isNil ps :=
@@ -210,7 +245,7 @@ def sampleEnv : Env :=
 
 example : usedForwarding sampleEnv = false := by decide
 example : HooksKeepFirst sampleEnv := by
-  refine ⟨fun f hf => by simp [sampleEnv] at hf, fun g hg => ?_⟩
+  refine ⟨fun f hf => by simp [sampleEnv, Env.hook1Seen] at hf, fun g hg => ?_⟩
   simp only [sampleEnv, Option.some.injEq] at hg
   subst hg
   intro b v hv
